@@ -266,6 +266,23 @@ let run_program (line : string) : string =
        | Some (k, w), _ -> "{\"build_error\":" ^ string_of_int (int_of_nat k) ^ ",\"why\":" ^ jstr (implode w) ^ "}"
        | None, Some m -> "{\"build_error\":null,\"obs\":" ^ jlist (fun o -> observe m o) obs ^ "}"
        | None, None -> failwith "impossible")
+  | L [A "kernel"; A name; L binds] ->
+      (* eager evaluation of a kernel translated into Model/Trace.v's language (property C19) *)
+      let k = (match name with
+               | "binary_search_sum_ge" -> k_binary_search_sum_ge | "piecewise_constant" -> k_piecewise_constant
+               | "linear_curve_at_x" -> k_linear_curve_at_x | "interpolate_linear" -> k_interpolate_linear
+               | "clean_compartments" -> k_clean_compartments | _ -> failwith "unknown kernel") in
+      let v_of = (function
+        | L [x; A "S"; A v] -> (str x, VS (q_of_string v))
+        | L [x; A "A"; L vs] -> (str x, VA (List.map (fun a -> q_of_string (atom a)) vs))
+        | _ -> failwith "bad kernel binding") in
+      let rec jval = (function
+        | VS x -> jstr (string_of_q x)
+        | VA l -> jlist (fun x -> jstr (string_of_q x)) l
+        | VP (a, b) -> "[" ^ jval a ^ "," ^ jval b ^ "]") in
+      (match ev (fun _ _ -> None) (nat_of_int 200) (List.map v_of binds) k with
+       | Some v -> "{\"kernel\":" ^ jval v ^ "}"
+       | None -> "{\"kernel\":null}")
   | _ -> failwith "bad program"
 
 let () =
